@@ -364,7 +364,10 @@ def build(routine, rng, far=False):
         )
         net, tgt = parts.double_q(rng, 5), parts.double_q(rng, 5)
         if routine == "soft":
-            call = lambda: soft_target_net_update(net, tgt, 0.3)  # noqa: E731
+            # far: the documented limit tau = 1 (hard replacement), int or float
+            tau = (1 if rng.random() < 0.5 else 1.0) if far else \
+                float(rng.choice([0.005, 0.3]))
+            call = lambda: soft_target_net_update(net, tgt, tau)  # noqa: E731
         else:
             call = lambda: hard_target_net_update(net, tgt)  # noqa: E731
         return call, dict(net=net, target=tgt), {"target"}
